@@ -151,7 +151,7 @@ def run(chk, repo, tier):
     from .common import operands_untouched
     operands_untouched(chk, repo, 'C06-o', ['field.merge', 'field._merge', 'field.reduce', 'field._reduce', 'field.overlap', 'field.insert', 'field.Field.__mul__', 'field.Field._mul_array', 'field.Field._mul_scalar', 'field._mul_broadcast'], allow=[('field.insert', 'out')])
     chk.clause('C06-a', 'bounding-box folds start from an identity of the fold (extents may be negative)', 4)
-    chk.clause('C06-b', 'extent identities; merge offset/shape/slices consistent with the bounding box', 14)
+    chk.clause('C06-b', 'extent identities; merge offset/shape/slices consistent with the bounding box', 16)
     chk.clause('C06-c', 'insert alignment invariant on all clipping paths (both axes)', 5)
     chk.clause('C06-d', 'scalar broadcast inherits the other operand\'s shape and offset; product uses the intersection', 3)
     chk.clause('C06-e', 'a merge is a sum: every field is added at its own slice into zeros', 2)
@@ -196,6 +196,8 @@ def run(chk, repo, tier):
                 or _repeated_list(r_) is not None
         general = [p_ for p_ in rets if not special(p_)] or rets[-1:]
         p = general[-1]
+        for sp in [p_ for p_ in rets if special(p_)]:
+            origin_shortcut_rule(chk, f, sp, b)
         if fn == '_merge_shape':
             want = Tup([b[1] - b[0] + 1, b[3] - b[2] + 1])
             chk.ob('C06-b', 'N-identity', f.key, 'shape of the bounding box', p.ret == want,
@@ -279,6 +281,193 @@ def run(chk, repo, tier):
     disjoint_rules(chk, repo)
 
 
+def _skip_is_outside(p, oshape, fshape, foff):
+    """Does the condition under which insert returns without adding anything imply that the field's window
+    [ul, ul + F) misses [0, O) on some axis?  Each disjunct of the deciding test must entail one of
+    ul + F <= 0, ul >= O (rows or columns); a disjunct that can hold for an overlapping field is shown with numbers."""
+    from .. import linear
+    from ..rules import literals
+    outside = []
+    for k in (0, 1):
+        O, F, off = oshape.items[k], fshape.items[k], foff.items[k]
+        ul = HALF(O) - HALF(F) + off
+        outside += [(ul + F, 'le0', k), (O - ul, 'le0', k)]
+    disj = []
+    for c, pol, _ in p.conds:
+        a = c.single_atom() if isinstance(c, Poly) else None
+        if a is not None and is_app(a, 'or') and pol:
+            disj = [x for x in a[2] if isinstance(x, Poly)]
+        elif a is not None and is_app(a, ('le', 'lt')) and pol:
+            disj = disj or [c]
+    if not disj:
+        return None, 'the test that decides to add nothing was not recognised'
+    try:
+        for d in disj:
+            base = linear.literal_constraints(d, True)
+            atoms = set(d.atoms(deep=True))
+            axioms = linear.floor_half_axioms(atoms)
+            for k in (0, 1):
+                axioms += [linear.le(linear.Lin({}, 1), linear.linearise(oshape.items[k])),
+                           linear.le(linear.Lin({}, 1), linear.linearise(fshape.items[k]))]
+            if any(linear.entails(base + axioms + linear.floor_half_axioms(set(g.atoms(deep=True))), linear.le(linear.linearise(g), linear.Lin()))
+                   for g, _, _ in outside):
+                continue
+            rng = {}
+            for k in (0, 1):
+                rng.update({oshape.items[k].single_atom(): range(1, 6), fshape.items[k].single_atom(): range(1, 5),
+                            foff.items[k].single_atom(): range(-6, 7)})
+            # a point where the disjunct holds although the windows overlap on both axes
+            for k in (0, 1):
+                free = {a_: r for a_, r in rng.items()
+                        if a_ in {oshape.items[k].single_atom(), fshape.items[k].single_atom(), foff.items[k].single_atom()}}
+                try:
+                    if not set(linear.free_atoms([x for a_ in [d.single_atom()] for x in a_[2]])) <= set(free):
+                        continue
+                except linear.NotLinear:
+                    continue
+                g1, g2 = outside[2 * k][0], outside[2 * k + 1][0]
+                inside = [(nf.app('lt', Poly.const(0), g1), True), (nf.app('lt', Poly.const(0), g2), True)]
+                env = linear.witness([(d, True)] + inside, Poly.const(-1), 'ge0', free)
+                if env is not None:
+                    nums = {fmt(Poly.atom(a_)): v for a_, v in env.items()}
+                    return False, f'nothing is added when {fmt(d)[:100]}, which also holds for a field that overlaps the array: {nums}'
+            return None, f'not decided whether {fmt(d)[:100]} implies that the field lies outside the array'
+    except linear.NotLinear as ex:
+        return None, f'skip condition not linear ({ex})'
+    return True, 'every alternative of the test entails ul + F <= 0 or ul >= O on some axis'
+
+
+def insert_bounds_rule(chk, repo, clause):
+    """Every slice bound that insert hands to numpy lies inside its array: 0 <= start, stop <= size on both axes, for
+    the target window and for the part of the field alike.  A negative stop does not clip, it counts from the other
+    end: the two slices then differ in length and the `+=` raises (or, for a length-1 remainder, broadcasts).  Decided in
+    the linear domain from the path conditions (with floor(n/2) axioms and sizes >= 1); a bound that is not entailed is
+    reported with concrete shapes and offset that satisfy the path conditions and push it out of range."""
+    from .. import linear
+    from ..rules import literals
+    f, paths, oshape, fshape, foff = insert_paths(repo)
+    bad, undecided, n = [], [], 0
+    for p in returns(paths):
+        ws = [e for e in p.writes() if e.data.get('how') == 'setitem' and root_sym(e.target) == 'out']
+        if len(ws) != 1:
+            continue
+        key = ws[0].data.get('key')
+        if not (isinstance(key, Tup) and len(key) == 2 and all(isinstance(s_, Slice) for s_ in key.items)):
+            continue            # the whole-array fast path
+        fsl = None
+        for a in nf.value_atoms(ws[0].data.get('value')):
+            if a[0] == 'idx' and isinstance(a[2], Tup) and len(a[2]) == 2 and all(isinstance(s_, Slice) for s_ in a[2].items) \
+                    and a[1][0] == 'attr' and a[1][2] == 'data':
+                fsl = a[2]
+        if fsl is None:
+            continue
+        lits = literals(p.conds)
+        lin_lits = []
+        for c, pol in lits:
+            ca = c.single_atom() if isinstance(c, Poly) else None
+            if ca is None or not is_app(ca, ('lt', 'le', 'eq', 'ne')):
+                continue
+            try:
+                linear.literal_constraints(c, pol)
+                lin_lits.append((c, pol))
+            except linear.NotLinear:
+                pass
+        for k in (0, 1):
+            O, F, off = oshape.items[k], fshape.items[k], foff.items[k]
+            axioms = [linear.le(linear.Lin({}, 1), linear.linearise(O)), linear.le(linear.Lin({}, 1), linear.linearise(F))]
+            cons = list(axioms)
+            atoms = set()
+            for c, pol in lin_lits:
+                cons += linear.literal_constraints(c, pol)
+                atoms |= set(c.atoms(deep=True)) if hasattr(c, 'atoms') else set()
+            for name, sl, size in (('target window', key.items[k], O), ('field part', fsl.items[k], F)):
+                for which, bnd in (('start', sl.lo), ('stop', sl.hi)):
+                    if not isinstance(bnd, Poly):
+                        continue
+                    n += 1
+                    try:
+                        bl = linear.linearise(bnd)
+                        extra = linear.floor_half_axioms(set(bnd.atoms(deep=False)) | {x for c, _ in lin_lits for x in c.atoms(deep=True)})
+                        low = linear.entails(cons + extra, linear.le(linear.Lin(), bl))
+                        high = linear.entails(cons + extra, linear.le(bl, linear.linearise(size)))
+                    except linear.NotLinear as ex:
+                        undecided.append(f'{name} {which} on axis {k}: {ex}')
+                        continue
+                    if low and high:
+                        continue
+                    rng = {O.single_atom(): range(1, 6), F.single_atom(): range(1, 5), off.single_atom(): range(-9, 10)}
+                    other = 1 - k
+                    rng.update({oshape.items[other].single_atom(): [3], fshape.items[other].single_atom(): [2],
+                                foff.items[other].single_atom(): [0]})
+                    here = [(c, pol) for c, pol in lin_lits
+                            if not ({oshape.items[other].single_atom(), fshape.items[other].single_atom(), foff.items[other].single_atom()}
+                                    & set(c.atoms(deep=True)))]
+                    env = None
+                    try:
+                        if not low:
+                            env = linear.witness(here, bnd, 'ge0', rng)
+                        if env is None and not high:
+                            env = linear.witness(here, bnd - size, 'le0', rng)
+                    except linear.NotLinear as ex:
+                        undecided.append(f'{name} {which} on axis {k}: {ex}')
+                        continue
+                    if env is None:
+                        undecided.append(f'{name} {which} on axis {k} [{conds_str(p)[-60:]}]')
+                        continue
+                    val = linear.evaluate(bnd, env)
+                    bad.append(f'{name} {which} on axis {k} is {int(val)} for a field of {env[F.single_atom()]} sample(s) at offset '
+                               f'{env[off.single_atom()]} in a target of {env[O.single_atom()]}')
+    chk.ob(clause, 'R-bounds', f.key, 'every slice bound lies inside its array (no negative stop that would count from the other end)',
+           (not bad) if (n and (bad or not undecided)) else None,
+           ('; '.join(sorted(set(bad))[:3]) + ': a field wholly outside the target must add nothing, here the slices wrap and the '
+            'accumulation raises') if bad else (f'{n} bounds entailed by the path conditions' if not undecided else
+                                               'not decided: ' + '; '.join(undecided[:2])), f.loc())
+
+
+def origin_shortcut_rule(chk, f, sp, b):
+    """The scalar shortcut of the merge helpers (shape (), one Ellipsis per field) is for fields that all sit at the origin
+    as one-element fields: it may be taken only when the bounding box is (0, 0, 0, 0).  Decided in the linear domain:
+    the path conditions, with rmin <= rmax and cmin <= cmax, must entail each bound = 0; otherwise a small bounding box
+    that satisfies the conditions and is not the origin is shown."""
+    from .. import linear
+    from ..rules import literals
+    ok, det = None, 'condition of the shortcut not understood as linear comparisons of the bounding box'
+    try:
+        bl = [linear.linearise(x) for x in b]
+        cons = [linear.le(bl[0], bl[1]), linear.le(bl[2], bl[3])]
+        lits = literals(sp.conds)
+        for c, pol in lits:
+            cons += linear.literal_constraints(c, pol)
+        zero = linear.Lin()
+        proved = all(linear.entails(cons, linear.le(x, zero)) and linear.entails(cons, linear.le(zero, x)) for x in bl)
+        if proved:
+            ok, det = True, 'the path conditions entail rmin = rmax = cmin = cmax = 0'
+        else:
+            import itertools
+            atoms = [x.single_atom() for x in b]
+            for vals in itertools.product(range(-2, 3), repeat=4):
+                if vals[0] > vals[1] or vals[2] > vals[3] or vals == (0, 0, 0, 0):
+                    continue
+                env = dict(zip(atoms, vals))
+                good = True
+                for c, pol in lits:
+                    a = c.single_atom()
+                    if a is not None and is_app(a, ('lt', 'le', 'eq')):
+                        x, y = linear.evaluate(a[2][0], env), linear.evaluate(a[2][1], env)
+                        t = {'lt': x < y, 'le': x <= y, 'eq': x == y}[a[1]]
+                    else:
+                        t = linear.evaluate(c, env) != 0
+                    good = good and (t == bool(pol))
+                if good:
+                    ok = False
+                    det = f'the shortcut is also taken for the bounding box (rmin, rmax, cmin, cmax) = {vals}, which is not a ' \
+                          'one-element field at the origin: the merged array becomes 0-d'
+                    break
+    except linear.NotLinear as ex:
+        det += f' ({ex})'
+    chk.ob('C06-b', 'N-identity', f.key, 'scalar shortcut only for the bounding box (0, 0, 0, 0)', ok, det, f.loc(sp.node))
+
+
 def _repeated_list(v):
     """v = [item, ...] * n  ->  (items, n)"""
     a = v.single_atom() if isinstance(v, Poly) else None
@@ -339,6 +528,33 @@ def slice_count_rule(chk, repo, clause):
         chk.ob(clause, 'D-sum', f.key, f'one slice per field [{conds_str(p)[:60]}]', ok, det, f.loc(p.node))
 
 
+def _union_of_extents(evs, st):
+    """the extent stored for the merged group, when it is written as (min, max, min, max) of the two extents that were
+    found to intersect -> (bool, detail) or None when the stored value is not of that form"""
+    tested = [e for e in evs if e.kind == 'call' and e.data.get('callee') == 'extent.intersect']
+    if not tested or not st:
+        return None
+    bound = tested[-1].bound
+    a, b = bound.get('a'), bound.get('b')
+    val = evs[st[-1]].data.get('value')
+    if not (isinstance(val, Tup) and len(val) == 4 and isinstance(a, (Poly, Tup)) and isinstance(b, (Poly, Tup))):
+        return None
+    wrong = []
+    for k, item in enumerate(val.items):
+        ia = item.single_atom() if isinstance(item, Poly) else None
+        if ia is None or not is_app(ia, ('min', 'max', 'minimum', 'maximum')) or len(ia[2]) != 2:
+            return None
+        want_kind = 'min' if k in (0, 2) else 'max'
+        ops = {nf.vkey(x) for x in ia[2]}
+        if ops != {nf.vkey(nf.index(a, C(k))), nf.vkey(nf.index(b, C(k)))}:
+            wrong.append(f'component {k} is {fmt(item)[:80]}')
+        elif not ia[1].startswith(want_kind):
+            wrong.append(f'component {k} ({"rmin rmax cmin cmax".split()[k]}) takes the {ia[1]} of the two groups; the union needs the {want_kind}')
+    if wrong:
+        return False, 'merged group extent: ' + '; '.join(wrong[:2])
+    return True, 'merged group extent = (min, max, min, max) of the two intersecting group extents'
+
+
 def _list_version_of(v, target):
     """v denotes the list `target` after an in-place extension (x += y / x.extend(y) leave the same object)"""
     a = v.single_atom() if isinstance(v, Poly) else None
@@ -365,8 +581,15 @@ def insert_rules(chk, repo, clause='C06-c'):
     f, paths, oshape, fshape, foff = insert_paths(repo)
     n = 0
     not_add = insert_accumulates(chk, repo, clause, (f, paths))
+    insert_bounds_rule(chk, repo, clause)
     for p in returns(paths):
         ws = [e for e in p.writes() if e.data.get('how') == 'setitem' and root_sym(e.target) == 'out']
+        if not ws and p.ret == S('out'):
+            # nothing is added: legitimate exactly when the field lies wholly outside the array on some axis
+            verdict, why = _skip_is_outside(p, oshape, fshape, foff)
+            chk.ob(clause, 'D-guard', 'field.insert', f'out is returned untouched only for a field wholly outside it [{conds_str(p)[-50:]}]',
+                   verdict, why, f.loc(p.node))
+            continue
         if len(ws) != 1:
             if not_add:
                 continue
@@ -599,6 +822,12 @@ def disjoint_rules(chk, repo):
             good = same_list and e_st.data.get('value') == e_b.data.get('result')
             if not good:
                 det_ord = f'boundary({fmt(arg)[:80]}) after extending {fmt(e_ext.target)[:80]}'
+        elif ext and st and not bnd and _union_of_extents(evs, st) is not None:
+            # no re-scan of the members: the stored extent must then be the union of the two group extents that were tested
+            verdict, why = _union_of_extents(evs, st)
+            det_ord = why
+            ok_ord = (ok_ord and verdict) if ok_ord is not None else (False if not verdict else None)
+            continue
         elif not ext or not bnd or not st:
             # one of the three steps is not visible as such on this path: no verdict
             det_ord = f'undecided: {len(ext)} group extension(s), {len(bnd)} boundary call(s), {len(st)} extent store(s) on the merging path'
